@@ -46,11 +46,20 @@ Points on which the man page is silent - resolved explicitly (R) or excluded fro
        is in exactly one group.
  4 (X) eavesdrop= on send rules, and whether a default (eavesdrop="false") <allow send_...> lets
        an eavesdropper receive: not generated / not judged.  An eavesdropping recipient is only
-       judged when it must NOT receive under every reading (see must_not_eavesdrop()).
+       judged when it must NOT receive under every reading (see eavesdrop_verdict()).
  5 (X) REPLY_SERIAL on method calls and signals: never generated.
- 6 (X) what a name-specific send_destination(_prefix) rule means for a broadcast (no destination):
-       broadcast probes are skipped for senders whose list names a destination that some listener
-       owns; same for eavesdroppers (scenarios with one have no name-specific destination rules).
+ 6 (R) whose names a send_destination(_prefix) rule sees when the connection that is about to get
+       a copy is not the one named in the DESTINATION field (broadcast recipient, eavesdropper).
+       The man page says the rule is about the connection, not the header field ("messages may
+       not be sent to ... the *owner* of the given name, not that they may not be sent *to that
+       name*") and that several connections can be recipients of one message: the sender's send
+       rules are therefore evaluated once PER PROSPECTIVE RECIPIENT - the addressee, every
+       broadcast recipient, every eavesdropper - with that connection's names.  A broadcast thus
+       reaches exactly the listeners the sender may send it to; an eavesdropper never gets a copy
+       of a message that the sender may not send to the eavesdropper itself.
+       (X) remains: whether a connection that merely QUEUES for the addressed name "owns" it in
+       the sense of the definition of eavesdropping - such an eavesdropper is judged only when its
+       receive rules deny under both readings (see eavesdrop_verdict()).
  7 (X) whether a DENIED reply uses up the pending call: a call is answered at most once with its
        real serial unless that reply was delivered.
  8 (X) requested-reply status of a reply as seen by an eavesdropper: judged only when the
@@ -313,14 +322,41 @@ def check_connect(blocks, user, groups, is_bus_owner):
     return Decision(allowed, win, pos, n, False)
 
 
-def must_not_eavesdrop(sender_rules, eaves_rules, msg, sender_names, eaves_names):
-    """True when an eavesdropper is denied under every reading of silent points 4 and 8: its own
-    receive rules deny (eavesdropping) for both values of `requested`, or the sender's send rules
-    evaluated for it as receiver deny for both values."""
+class EavesVerdict(object):
+    """must_not: the eavesdropper gets no copy under every reading of silent points 4, 6(X), 8.
+    send / recv: the decisions (requested=False, eavesdropping=True) for the evidence;
+    send_denied / recv_denied: denied for every value of the undetermined inputs."""
+    __slots__ = ("must_not", "send_denied", "recv_denied", "send", "recv")
+
+
+def eavesdrop_verdict(sender_rules, eaves_rules, msg, sender_names, eaves_names, queued_for_addressed=False):
+    """The copy of a unicast message for an eavesdropping connection (silent point 6: the sender's
+    send rules see the EAVESDROPPER's names).  Denied for sure when the eavesdropper's own receive
+    rules deny (eavesdropping; both values of `requested`; also as a non-eavesdropper when it queues
+    for the addressed name) or when the sender's send rules with it as receiver deny (both values
+    of `requested`)."""
     vals = (True, False) if msg["type"] in REPLY_TYPES else (False,)
-    recv_denied = all(not check_receive(eaves_rules, msg, sender_names, v, True).allowed for v in vals)
-    send_denied = all(not check_send(sender_rules, msg, eaves_names, v).allowed for v in vals)
-    return recv_denied or send_denied
+    modes = (True, False) if queued_for_addressed else (True,)
+    v = EavesVerdict()
+    v.recv_denied = all(not check_receive(eaves_rules, msg, sender_names, q, m).allowed for q in vals for m in modes)
+    v.send_denied = all(not check_send(sender_rules, msg, eaves_names, q).allowed for q in vals)
+    v.send = check_send(sender_rules, msg, eaves_names, False)
+    v.recv = check_receive(eaves_rules, msg, sender_names, False, True)
+    v.must_not = v.recv_denied or v.send_denied
+    return v
+
+
+def must_not_eavesdrop(sender_rules, eaves_rules, msg, sender_names, eaves_names, queued_for_addressed=False):
+    """True when an eavesdropper is denied under every reading of silent points 4, 6(X) and 8."""
+    return eavesdrop_verdict(sender_rules, eaves_rules, msg, sender_names, eaves_names, queued_for_addressed).must_not
+
+
+def names_destination_rule(rule):
+    """The rule is qualified by a name-specific destination (not '*')."""
+    if rule is None:
+        return False
+    a = rule["attrs"]
+    return a.get("send_destination") not in (None, "*") or "send_destination_prefix" in a
 
 
 # ----------------------------------------------------------------------------- config rendering
